@@ -468,6 +468,7 @@ namespace GeographicLib {
     //
     // So use series if (2*e/(1-e2)*dx) is sufficiently small
     real s, dx = 1 - x, dy = 1 - y, xy = 1, yy = 1, ee = _e2 / Math::sq(_e2m);
+    int nsmall = 0;
     s = ee;
     for (int m = 1; ; ++m) {
        real c = m + 2, t = c;
@@ -490,8 +491,13 @@ namespace GeographicLib {
       // Straight sum for outer m series
       real ds = t * ee * xy / (m + 2);
       s = s + ds;
-      if (!(fabs(ds) > fabs(s) * eps_/2))
-        break;            // Iterate until the added term is sufficiently small
+      // Iterate until two successive added terms are sufficiently small (a
+      // single term can vanish identically, e.g., m = 4, 10, 16, ... for e2 =
+      // -3, which would otherwise truncate the series prematurely).
+      if (fabs(ds) > fabs(s) * eps_/2)
+        nsmall = 0;
+      else if (++nsmall == 2)
+        break;
     }
     return s;
   }
